@@ -27,7 +27,7 @@
   the correspondence run (request traces compared call by call) and the shape facts of st_alloc.py.
 -/
 import JsonC.Lemmas.AllocCopy
-import JsonC.Model.AllocSer
+import JsonC.Lemmas.AllocSer
 
 namespace JsonC.Alloc
 open JsonC Generated
@@ -369,6 +369,15 @@ def serText (o : Outcome (Option SerRes × Heap)) : Option Bytes :=
   match o with
   | .ok (some r, _) => r.text
   | _ => none
+
+/-- json_object_to_json_string_ext, for every value the model covers, every flag set, every oracle and
+heap: unless an append was dropped on the way (`dropped`, the clause tagged `ser.unchecked-append`)
+the call returns NULL or exactly the complete text `fullText v flags` (Model/AllocSer.lean: what the
+emitters write when every append is served).  The unrestricted statement is false: `serialize_truncates`. -/
+theorem serialize_complete_partial (v : JVal) (flags : Nat) (g : Oracle) (h : Heap) (r : SerRes) (h' : Heap)
+    (e : serialize v flags g h = .ok (some r, h')) (hd : r.dropped = false) :
+    r.text = none ∨ r.text = fullText v flags :=
+  serialize_complete_spec v flags g h r h' e hd
 
 /-- `ser.unchecked-append`, the known finding, at model level: json_object_to_json_string_ext of
 [1,"ab" ++ 31 × "a"] with the third allocator call (the first printbuf_extend realloc) refused returns the
